@@ -171,6 +171,7 @@ func (fr *Frame) enterLoop(lp *Loop, b *ssa.BasicBlock) bool {
 		ex.oblige(name+"/inv:"+cl.Label+"/entry", "inv-entry", pos, fr.cur, t)
 	}
 	// havoc
+	var segHavoc []*Term
 	roots, unknown := fr.modifiedRoots(lp)
 	if unknown {
 		ex.oos("%s: %s writes through a pointer that is not a local cell: %s", shortName(fr.fn.String()), name, fr.lastUnknown)
@@ -185,7 +186,11 @@ func (fr *Frame) enterLoop(lp *Loop, b *ssa.BasicBlock) bool {
 		if nm == "" {
 			nm = p.Name()
 		}
-		fr.vals[p] = TV{Typed(Fresh(fmt.Sprintf("%s@loop%d", nm, lp.Ord), old.T.Sort), old.Typ), old.Typ}
+		hv := Fresh(fmt.Sprintf("%s@loop%d", nm, lp.Ord), old.T.Sort)
+		if p.Comment != "rangeindex" {
+			segHavoc = append(segHavoc, hv)
+		}
+		fr.vals[p] = TV{Typed(hv, old.Typ), old.Typ}
 	}
 	for r := range roots {
 		var c *Cell
@@ -213,6 +218,7 @@ func (fr *Frame) enterLoop(lp *Loop, b *ssa.BasicBlock) bool {
 			continue
 		}
 		fr.mem[c] = Fresh(fmt.Sprintf("%s@loop%d", c.Name, lp.Ord), c.sort())
+		segHavoc = append(segHavoc, fr.mem[c])
 		if _, isMap := c.Typ.Underlying().(*types.Map); isMap && !c.Dyn && !c.Param {
 			// a map made by `make` stays non-nil
 			ex.assume(fr.cur, Not(SelField(fr.mem[c].Sort.Ctors[0], 3, fr.mem[c])))
@@ -222,6 +228,7 @@ func (fr *Frame) enterLoop(lp *Loop, b *ssa.BasicBlock) bool {
 	for _, p := range phis {
 		hav[p] = fr.vals[p]
 	}
+	fr.segEnter(lp, fr.cur, segHavoc)
 	env2 := fr.loopEnv(lp, hav, fr.mem)
 	// automatic range-loop invariant -1 <= rangeindex < len, proved like any other invariant:
 	// entry (-1 < len) here, preservation in closeLoop.
@@ -253,6 +260,7 @@ func (fr *Frame) closeLoop(lp *Loop, b *ssa.BasicBlock) {
 	if g.IsFalse() {
 		return
 	}
+	fr.segClose(lp)
 	next := map[*ssa.Phi]Val{}
 	for _, p := range phis {
 		for k, pp := range lp.Header.Preds {
@@ -610,6 +618,7 @@ func (ex *Exec) verifyTop(fn *ssa.Function, con *Contract) {
 	if ex.PanicOK != nil {
 		ex.oblige("panics-iff/returns-only-when-not", "panics-iff", pos, retG, Not(ex.PanicOK))
 	}
+	ex.preimageObligations(fr, con, entryEnv, post, retG, pos)
 	ex.finish(nReq)
 }
 
